@@ -164,11 +164,41 @@ fn std_error_part() {
     emit("std.error", format!("{none}{}", std::error::Error::source(&u2).is_some()), "truetrue".into());
 }
 
+/// a user trait whose supertrait is a mirrored one: its provided method formats `self` — Display and Debug each with
+/// format options — through the bundled `Display` / `Debug` mocks, compared with a plain struct
+#[unimock(api = ReportMock)]
+trait Report: std::error::Error {
+    fn code(&self) -> u32;
+    fn render(&self) -> String { format!("{}|{self}|{self:>8}|{self:*<6}|{self:.1}|{self:?}|{self:#?}", self.code()) }
+}
+fn fmt_part() {
+    use unimock::mock::core::fmt::{DebugMock, DisplayMock};
+    #[derive(Debug)]
+    #[allow(dead_code)]
+    struct Timeout { ms: u32 }
+    struct Plain;
+    impl std::fmt::Display for Plain { fn fmt(&self, f: &mut std::fmt::Formatter<'_>) -> std::fmt::Result { f.pad("ab") } }
+    impl std::fmt::Debug for Plain { fn fmt(&self, f: &mut std::fmt::Formatter<'_>) -> std::fmt::Result { std::fmt::Debug::fmt(&Timeout { ms: 30 }, f) } }
+    impl std::error::Error for Plain {}
+    impl Report for Plain { fn code(&self) -> u32 { 7 } }
+    let u = Unimock::new((
+        ReportMock::code.each_call(matching!()).returns(7u32).at_least_times(0),
+        DisplayMock::fmt.each_call(matching!(_)).answers(&|_, f| f.pad("ab")).at_least_times(0),
+        DebugMock::fmt.each_call(matching!(_)).answers(&|_, f| std::fmt::Debug::fmt(&Timeout { ms: 30 }, f)).at_least_times(0),
+    )).no_verify_in_drop();
+    emit("fmt.provided-over-supertrait", u.render().replace('\n', "\\n"), Plain.render().replace('\n', "\\n"));
+    // only Debug mocked: the provided method's `{self:?}` must reach DebugMock::fmt, not DisplayMock::fmt
+    #[unimock(api = DbgOnlyMock)]
+    trait DbgOnly: std::fmt::Debug { fn show(&self) -> String { format!("<{self:?}>") } }
+    let u = Unimock::new(DebugMock::fmt.each_call(matching!(_)).answers(&|_, f| f.write_str("dbg")).at_least_times(0)).no_verify_in_drop();
+    emit("fmt.debug-only", u.show(), "<dbg>".into());
+}
+
 fn main() {
     if std::env::var("MIRROR_VERBOSE").is_err() { std::panic::set_hook(Box::new(|_| {})); }
     let waker = Waker::from(Arc::new(NoopWake));
     let mut cx = Context::from_waker(&waker);
-    for (name, f) in [("tokio", &mut (|| tokio_part(&mut Context::from_waker(&Waker::from(Arc::new(NoopWake))))) as &mut dyn FnMut()), ("futures", &mut (|| futures_part(&mut Context::from_waker(&Waker::from(Arc::new(NoopWake)))))), ("hal", &mut hal_part), ("std.error", &mut std_error_part)] {
+    for (name, f) in [("tokio", &mut (|| tokio_part(&mut Context::from_waker(&Waker::from(Arc::new(NoopWake))))) as &mut dyn FnMut()), ("futures", &mut (|| futures_part(&mut Context::from_waker(&Waker::from(Arc::new(NoopWake)))))), ("hal", &mut hal_part), ("std.error", &mut std_error_part), ("fmt", &mut fmt_part)] {
         if std::panic::catch_unwind(std::panic::AssertUnwindSafe(|| f())).is_err() {
             println!("case {name}.crash\tmock=panicked\tplain=ok");
         }
